@@ -591,6 +591,7 @@ func (p *Builder) writeProfile(profile Profile, idx int, allowLabel string) {
 		"deny":      "deny",
 		"pass":      "deny",
 		"next-tier": "deny",
+		"log":       "log",
 	}
 	log.Debugf("Start of profile %q %d", profile.Name, idx)
 	p.writePolicyRules(profile, actionLabels, legDest)
@@ -1255,6 +1256,10 @@ func protocolToNumber(protocol *proto.Protocol) uint8 {
 			pcol = 1
 		case "sctp":
 			pcol = 132
+		case "icmpv6":
+			pcol = 58
+		case "udplite":
+			pcol = 136
 		}
 	case *proto.Protocol_Number:
 		pcol = uint8(p.Number)
